@@ -179,9 +179,9 @@ func checkC04(tier string) {
 	c := newCtx("C04", tier, "fc", "bsm")
 	repo := c.B.Repo
 	quick := tier == "quick"
-	selfM, sampleM, gen2M := 12, 6, 4
+	selfM, sampleM, gen2M := 30, 10, 8
 	if !quick {
-		selfM, sampleM, gen2M = 200, 100, 20
+		selfM, sampleM, gen2M = 400, 150, 60
 	}
 	expectOf := func(paths []string) map[string]string {
 		m := map[string]string{}
